@@ -70,8 +70,10 @@ def _invocation(root, ctl, inv, argv, clock, mode, result_path):
 
             def mkdir(path, *a, **kw):
                 if ".task." in os.path.basename(os.fspath(path)) and not os.path.exists(os.path.join(ctl, "go_mkdir_%s" % inv)):
-                    with open(os.path.join(ctl, "paused_mkdir_%s" % inv), "w") as f:
+                    # (written under another name and renamed: the controller must never see the file before its content)
+                    with open(os.path.join(ctl, "paused_mkdir_%s.tmp" % inv), "w") as f:
                         f.write(os.fspath(path))
+                    os.rename(os.path.join(ctl, "paused_mkdir_%s.tmp" % inv), os.path.join(ctl, "paused_mkdir_%s" % inv))
                     while not os.path.exists(os.path.join(ctl, "go_mkdir_%s" % inv)):
                         time.sleep(0.005)
                 return real_mkdir(path, *a, **kw)
@@ -81,8 +83,9 @@ def _invocation(root, ctl, inv, argv, clock, mode, result_path):
 
             def rmtree(path, *a, **kw):
                 if ".task." in os.path.basename(os.fspath(path)) and not os.path.exists(os.path.join(ctl, "go_rm")):
-                    with open(os.path.join(ctl, "paused_rm"), "w") as f:
+                    with open(os.path.join(ctl, "paused_rm.tmp"), "w") as f:
                         f.write(os.fspath(path))
+                    os.rename(os.path.join(ctl, "paused_rm.tmp"), os.path.join(ctl, "paused_rm"))
                     while not os.path.exists(os.path.join(ctl, "go_rm")):
                         time.sleep(0.005)
                 return real_rmtree(path, *a, **kw)
